@@ -253,9 +253,12 @@ Section Proofs.
     intros st Hr He Hp. destruct (reach_good st Hr He) as (G & M & T). auto.
   Qed.
 
-  (* ORIGINAL STATEMENT (FALSE for the model as written):
+  (*FIXED -- hypothesis changed: reach -> reach1*)
+  (* the engine never trips one of its own assertions *)
+  (* ORIGINAL STATEMENT (FALSE for the model as written, machine-checked in
+     Counterexample.reach_no_panic_original_false below):
        Theorem reach_no_panic : forall st, reach cx st -> p_error st = false -> p_panic st = false.
-     Counterexample (Eval vm_compute, see the final report): grammar
+     Counterexample: grammar
        n0 -> A n0 | A,  A = /a+/,  start -> n0;
      init; apply_token [97]; scan_eos; apply_token [97]; scan_eos
      are all `reach` steps (both apply_token return true), p_error stays false, and the
@@ -317,9 +320,14 @@ Section Proofs.
      are kept in comments.  cache_transparent and apply_token_app hold as stated. *)
   (* ---------------------------------------------------------------------- *)
 
-  (* ORIGINAL:
+  (*FIXED -- hypothesis added: p_panic st = false*)
+  (* ORIGINAL (false: Counterexample.compute_bias_spec_original_false):
      Theorem compute_bias_spec : forall st m st',
-       reach cx st -> compute_bias cx st [] = (m, st') -> p_error st' = false -> ... (same conclusion) *)
+       reach cx st -> compute_bias cx st [] = (m, st') -> p_error st' = false ->
+       healthy st' /\ abs_stack st' = abs_stack st /\
+       p_bytes st' = p_bytes st /\ p_applied st' = p_applied st /\
+       vsize m = vocab_size (c_trie cx) /\ no_excess m /\
+       (forall t, t < vocab_size (c_trie cx) -> get m t = mask_spec cx (abs_top st) t). *)
   (* E1: the mask (with or without a cache hit, with or without row reuse) is
      the per-token test against the pure engine; the virtual stack is restored *)
   Theorem compute_bias_spec : forall st m st',
@@ -343,10 +351,17 @@ Section Proofs.
   Lemma max_lim : forall st, p_max_items st = None -> over_limit st = false.
   Proof. intros st H. unfold over_limit. rewrite H. reflexivity. Qed.
 
-  (* ORIGINAL:
+  (*FIXED -- hypothesis added: p_panic st = false*)
+  (* ORIGINAL (false: Counterexample.apply_token_spec_original_false):
      Theorem apply_token_spec : forall st w ok st',
        reach cx st -> p_error st = false -> p_applied st = length (p_bytes st) ->
-       apply_token cx st w = (ok, st') -> p_error st' = false -> ... (same conclusion) *)
+       apply_token cx st w = (ok, st') -> p_error st' = false ->
+       (ok = true <-> run pframe (ppush cx) (abs_top st) w <> None) /\
+       (ok = true ->
+          healthy st' /\
+          run pframe (ppush cx) (abs_top st) w = Some (abs_top st') /\
+          (exists pushed, length pushed = length w /\ abs_stack st' = pushed ++ abs_stack st) /\
+          p_bytes st' = p_bytes st ++ w /\ p_applied st' = length (p_bytes st')). *)
   (* E2: committing bytes = running the pure engine, one frame per byte *)
   Theorem apply_token_spec : forall st w ok st',
     reach cx st -> p_panic st = false ->
@@ -419,10 +434,14 @@ Section Proofs.
     exact (Hgo _ f [] stk0 eq_refl).
   Qed.
 
-  (* ORIGINAL:
+  (*FIXED -- hypothesis added: p_panic st = false*)
+  (* ORIGINAL (false: Counterexample.validate_tokens_spec_original_false):
      Theorem validate_tokens_spec : forall st toks n st',
        reach cx st -> p_applied st = length (p_bytes st) ->
-       validate_tokens cx st toks = (n, st') -> p_error st' = false -> ... (same conclusion) *)
+       validate_tokens cx st toks = (n, st') -> p_error st' = false ->
+       healthy st' /\ abs_stack st' = abs_stack st /\
+       p_bytes st' = p_bytes st /\ p_applied st' = p_applied st /\
+       n = p_validate cx (abs_stack st) toks. *)
   (* E3: validation = pushing the same bytes speculatively; nothing changes *)
   Theorem validate_tokens_spec : forall st toks n st',
     reach cx st -> p_panic st = false ->
@@ -446,9 +465,13 @@ Section Proofs.
       destruct (p_stack st); [congruence|discriminate].
   Qed.
 
-  (* ORIGINAL:
+  (*FIXED -- hypothesis added: p_panic st = false*)
+  (* ORIGINAL (false: Counterexample.is_accepting_spec_original_false):
      Theorem is_accepting_spec : forall st a st',
-       reach cx st -> is_accepting cx st = (a, st') -> p_error st' = false -> ... (same conclusion) *)
+       reach cx st -> is_accepting cx st = (a, st') -> p_error st' = false ->
+       healthy st' /\ abs_stack st' = abs_stack st /\
+       p_bytes st' = p_bytes st /\ p_applied st' = p_applied st /\
+       a = p_accepting cx (abs_stack st). *)
   (* E4 *)
   Theorem is_accepting_spec : forall st a st',
     reach cx st -> p_panic st = false ->
@@ -469,11 +492,14 @@ Section Proofs.
     apply Hacc. apply max_lim. rewrite (cl_max _ _ C). exact M.
   Qed.
 
-  (* ORIGINAL:
+  (*FIXED -- hypothesis added: p_panic st = false*)
+  (* ORIGINAL (false: Counterexample.rollback_originals_false):
      Theorem rollback_restores : forall st w st1 st2,
        reach cx st -> p_error st = false -> p_applied st = length (p_bytes st) -> p_top_eos st = false ->
        apply_token cx st w = (true, st1) -> p_error st1 = false ->
-       rollback cx st1 (length w) = Some st2 -> ... (same conclusion) *)
+       rollback cx st1 (length w) = Some st2 ->
+       healthy st2 /\ abs_stack st2 = abs_stack st /\ p_bytes st2 = p_bytes st /\
+       p_applied st2 = p_applied st /\ p_top_eos st2 = false /\ p_cache st2 = None. *)
   (* E5: rolling back the bytes of a commit restores the earlier state
      (as seen through every observable: stack of pure frames, bytes, cache empty) *)
   Theorem rollback_restores : forall st w st1 st2,
@@ -525,11 +551,17 @@ Section Proofs.
       split; [exact (dpush_trans cx _ _ _ _ _ G D D2)|exact Ha2].
   Qed.
 
-  (* ORIGINAL:
+  (*FIXED -- hypothesis added: p_panic st = false*)
+  (* ORIGINAL (false: Counterexample.rollback_originals_false):
      Theorem rollback_many : forall ws st st1 st2,
        reach cx st -> p_error st = false -> p_applied st = length (p_bytes st) -> p_top_eos st = false ->
-       fold_left (...) ws (Some st) = Some st1 ->
-       rollback cx st1 (length (concat ws)) = Some st2 -> ... (same conclusion) *)
+       fold_left (fun acc w => match acc with
+                               | Some s => let '(ok, s') := apply_token cx s w in
+                                           if ok && negb (p_error s') then Some s' else None
+                               | None => None end) ws (Some st) = Some st1 ->
+       rollback cx st1 (length (concat ws)) = Some st2 ->
+       healthy st2 /\ abs_stack st2 = abs_stack st /\ p_bytes st2 = p_bytes st /\
+       p_applied st2 = p_applied st /\ p_top_eos st2 = false. *)
   (* rollback composes: k commits then one rollback of all their bytes *)
   Theorem rollback_many : forall ws st st1 st2,
     reach cx st -> p_panic st = false ->
@@ -550,6 +582,99 @@ Section Proofs.
       as (G2 & T2 & _ & Habs & Hb & Hap & Heos2 & Hc & He2 & _).
     split; [split; [exact He2|exact (td_panic _ T2)]|].
     repeat (split; [assumption|]). exact Heos2.
+  Qed.
+
+  (* ---------------------------------------------------------------------- *)
+  (* The same four specifications for ALL reachable states: everything except the
+     panic component of `healthy` holds without the added hypothesis, and the panic
+     flag is not raised by the operation. *)
+  (* ---------------------------------------------------------------------- *)
+  Theorem compute_bias_spec_gen : forall st m st',
+    reach cx st -> compute_bias cx st [] = (m, st') -> p_error st' = false ->
+    (p_panic st = false -> p_panic st' = false) /\ abs_stack st' = abs_stack st /\
+    p_bytes st' = p_bytes st /\ p_applied st' = p_applied st /\
+    vsize m = vocab_size (c_trie cx) /\ no_excess m /\
+    (forall t, t < vocab_size (c_trie cx) -> get m t = mask_spec cx (abs_top st) t).
+  Proof.
+    destruct Hcore as [[ws Htrie] Hnr].
+    intros st m st' Hr Hb Herr.
+    pose proof (compute_bias_flags cx _ _ _ _ Hb) as F.
+    destruct (reach_good st Hr (err_back _ _ F Herr)) as (G & M & T).
+    destruct (compute_bias_good cx ws Htrie Hnr st m st' G M Hb Herr) as (O & _ & Hv & Hne & Hg).
+    split; [intros Hp; exact (td_panic _ (os_tidy _ _ _ O (T Hp)))|].
+    split; [exact (os_abs _ _ _ O)|]. split; [exact (os_bytes _ _ _ O)|].
+    split; [exact (os_applied _ _ _ O)|]. split; [exact Hv|]. split; [exact Hne|exact Hg].
+  Qed.
+
+  Theorem is_accepting_spec_gen : forall st a st',
+    reach cx st -> is_accepting cx st = (a, st') -> p_error st' = false ->
+    (p_panic st = false -> p_panic st' = false) /\ abs_stack st' = abs_stack st /\
+    p_bytes st' = p_bytes st /\ p_applied st' = p_applied st /\
+    a = p_accepting cx (abs_stack st).
+  Proof.
+    intros st a st' Hr Ha Herr.
+    pose proof (is_accepting_ctl cx _ _ _ Ha) as C.
+    assert (He : p_error st = false) by (rewrite <- (cl_error _ _ C); exact Herr).
+    destruct (reach_good st Hr He) as (G & M & T).
+    destruct Hcore as [[ws Htrie] Hnr].
+    destruct (is_accepting_good cx st a st' G Ha) as [R Hacc].
+    split; [intros Hp; exact (td_panic _ (sr_tidy _ _ _ R (T Hp)))|].
+    split; [exact (sr_abs _ _ _ R)|]. split; [exact (cl_bytes _ _ C)|].
+    split; [exact (cl_applied _ _ C)|].
+    apply Hacc. apply max_lim. rewrite (cl_max _ _ C). exact M.
+  Qed.
+
+  Theorem validate_tokens_spec_gen : forall st toks n st',
+    reach cx st -> p_applied st = length (p_bytes st) ->
+    validate_tokens cx st toks = (n, st') -> p_error st' = false ->
+    (p_panic st = false -> p_panic st' = false) /\ abs_stack st' = abs_stack st /\
+    p_bytes st' = p_bytes st /\ p_applied st' = p_applied st /\
+    n = p_validate cx (abs_stack st) toks.
+  Proof.
+    intros st toks n st' Hr Happ Hv Herr.
+    pose proof (validate_tokens_ctl cx _ _ _ _ Hv) as C.
+    assert (He : p_error st = false) by (rewrite <- (cl_error _ _ C); exact Herr).
+    destruct (reach_good st Hr He) as (G & M & T).
+    destruct (validate_tokens_good cx st toks n st' G Hv) as [R Hn].
+    split; [intros Hp; exact (td_panic _ (sr_tidy _ _ _ R (T Hp)))|].
+    split; [exact (sr_abs _ _ _ R)|]. split; [exact (cl_bytes _ _ C)|].
+    split; [exact (cl_applied _ _ C)|].
+    rewrite p_validate_pval.
+    - apply Hn; [exact Happ|]. apply max_lim. rewrite (cl_max _ _ C). exact M.
+    - pose proof (s_ne _ _ (gd_struct _ _ G)) as Hne. unfold abs_stack.
+      destruct (p_stack st); [congruence|discriminate].
+  Qed.
+
+  Theorem apply_token_spec_gen : forall st w ok st',
+    reach cx st -> p_error st = false -> p_applied st = length (p_bytes st) ->
+    apply_token cx st w = (ok, st') -> p_error st' = false ->
+    (ok = true <-> run pframe (ppush cx) (abs_top st) w <> None) /\
+    (ok = true ->
+       (p_panic st = false -> p_panic st' = false) /\
+       run pframe (ppush cx) (abs_top st) w = Some (abs_top st') /\
+       (exists pushed, length pushed = length w /\ abs_stack st' = pushed ++ abs_stack st) /\
+       p_bytes st' = p_bytes st ++ w /\ p_applied st' = length (p_bytes st')).
+  Proof.
+    intros st w ok st' Hr He Happ Ha Herr.
+    destruct (reach_good st Hr He) as (G & M & T).
+    destruct (apply_token_good cx st w ok st' G Ha) as [L _].
+    assert (Hlim : over_limit st' = false) by (apply max_lim; rewrite (ll_max _ _ L); exact M).
+    destruct (apply_token_sim cx st w ok st' G Happ Ha Hlim) as [Hs Hd].
+    pose proof (abs_top_stack st (s_ne _ _ (gd_struct _ _ G))) as Habs.
+    pose proof (prun_run cx w (abs_top st) (tl (abs_stack st))) as Hpr.
+    rewrite <- Habs in Hpr.
+    destruct (prun cx (abs_stack st) w) as [stk'|].
+    - destruct Hs as [-> Habs']. destruct Hpr as (pushed & Hstk & Hlen & Hrun).
+      split; [split; [intros _; rewrite Hrun; discriminate|reflexivity]|].
+      intros _. destruct (Hd eq_refl) as [D Ha'].
+      split; [intros Hp; exact (td_panic _ (dp_tidy _ _ _ _ D (T Hp)))|].
+      split.
+      { rewrite Hrun. f_equal. rewrite <- Habs'.
+        rewrite (abs_top_stack st' (s_ne _ _ (gd_struct _ _ (dp_good _ _ _ _ D)))). reflexivity. }
+      split.
+      { exists pushed. split; [exact Hlen|]. rewrite Habs'. exact Hstk. }
+      split; [exact (dp_bytes _ _ _ _ D)|exact Ha'].
+    - subst ok. split; [split; [discriminate|intros H; exfalso; exact (H Hpr)]|discriminate].
   Qed.
 
   (*FIXED*) (* C11: dropping the cache never changes a mask *)
@@ -612,4 +737,210 @@ Print Assumptions rollback_restores.
 Print Assumptions rollback_many.
 Print Assumptions cache_transparent.
 Print Assumptions apply_token_app.
+Print Assumptions compute_bias_spec_gen.
+Print Assumptions apply_token_spec_gen.
+Print Assumptions validate_tokens_spec_gen.
+Print Assumptions is_accepting_spec_gen.
 
+(* ------------------------------------------------------------------------ *)
+(* Machine-checked counterexamples to the ORIGINAL statements               *)
+(* ------------------------------------------------------------------------ *)
+Module Counterexample.
+  (* n0 -> A n0 | A ;  start -> n0 ;  A = /a+/ ;  vocabulary {"a", "b"} *)
+  Definition ce_g : grammar := mk_grammar [ [[TM 0; NT 0]; [TM 0]] ; [[NT 0]] ] 1.
+  Definition ce_sp : lexspec := [mk_lexeme (Rep (lit [97]) 1 None) false false []].
+  Definition ce_cx : ctx :=
+    mk_ctx ce_g (nullable_set ce_g) ce_sp (trie_from [[97]; [98]]) None [] true 50000.
+
+  Lemma ce_core : core_ctx ce_cx.
+  Proof.
+    split.
+    - exists [[97]; [98]]. reflexivity.
+    - intros i. unfold lex_get. cbn [c_sp ce_cx ce_sp].
+      destruct (N.to_nat i) as [|[|k]]; reflexivity.
+  Qed.
+
+  Lemma ce_clears : c_rollback_clears_cache ce_cx = true.
+  Proof. reflexivity. Qed.
+
+  Definition o_apply (o : option pstate) (w : bytes) : option pstate :=
+    match o with
+    | Some s => let '(ok, s') := apply_token ce_cx s w in if ok then Some s' else None
+    | None => None
+    end.
+  Definition o_eos (o : option pstate) : option pstate :=
+    match o with Some s => Some (snd (scan_eos ce_cx s)) | None => None end.
+  Definition o_rollback (o : option pstate) (n : nat) : option pstate :=
+    match o with Some s => rollback ce_cx s n | None => None end.
+
+  Definition oreach (o : option pstate) : Prop := forall s, o = Some s -> reach ce_cx s.
+
+  Lemma o_init_reach : oreach (init_state ce_cx).
+  Proof. intros s H. apply r_init. exact H. Qed.
+  Lemma o_apply_reach : forall o w, oreach o -> oreach (o_apply o w).
+  Proof.
+    intros [s|] w Ho s' H; cbn [o_apply] in H; [|discriminate].
+    destruct (apply_token ce_cx s w) as [ok s1] eqn:E. destruct ok; [|discriminate].
+    inversion H; subst. eapply r_apply; [apply Ho; reflexivity|exact E].
+  Qed.
+  Lemma o_eos_reach : forall o, oreach o -> oreach (o_eos o).
+  Proof.
+    intros [s|] Ho s' H; cbn [o_eos] in H; [|discriminate]. inversion H; subst.
+    destruct (scan_eos ce_cx s) as [b s1] eqn:E. eapply r_scan_eos; [apply Ho; reflexivity|exact E].
+  Qed.
+  Lemma o_rollback_reach : forall o n, oreach o -> oreach (o_rollback o n).
+  Proof.
+    intros [s|] n Ho s' H; cbn [o_rollback] in H; [|discriminate].
+    eapply r_rollback; [apply Ho; reflexivity|exact H].
+  Qed.
+
+  (* init; commit "a"; scan_eos; commit "a"; scan_eos *)
+  Definition ce_final : option pstate :=
+    o_eos (o_apply (o_eos (o_apply (init_state ce_cx) [97])) [97]).
+  (* ... then rollback(0): p_top_eos is false again, the flag stays *)
+  Definition ce_final' : option pstate := o_rollback ce_final 0.
+
+  Lemma ce_final_reach : oreach ce_final.
+  Proof.
+    unfold ce_final. apply o_eos_reach, o_apply_reach, o_eos_reach, o_apply_reach, o_init_reach.
+  Qed.
+  Lemma ce_final'_reach : oreach ce_final'.
+  Proof. unfold ce_final'. apply o_rollback_reach. exact ce_final_reach. Qed.
+
+  Lemma ce_flags :
+    option_map (fun st => (p_error st, p_panic st)) ce_final = Some (false, true).
+  Proof. vm_compute. reflexivity. Qed.
+
+  Lemma ce_flags' :
+    option_map (fun st => (p_error st, p_panic st, p_top_eos st,
+                           Nat.eqb (p_applied st) (length (p_bytes st)))) ce_final'
+    = Some (false, true, false, true).
+  Proof. vm_compute. reflexivity. Qed.
+
+  (* the original reach_no_panic is false *)
+  Theorem reach_no_panic_original_false :
+    exists st, reach ce_cx st /\ p_error st = false /\ p_panic st = true.
+  Proof.
+    pose proof ce_flags as H. destruct ce_final as [st|] eqn:E; [|discriminate H].
+    cbn [option_map] in H. inversion H as [[He Hp]].
+    exists st. split; [apply ce_final_reach; exact E|split; reflexivity].
+  Qed.
+
+  (* hence every original statement concluding `healthy st'` is false: the flag is
+     sticky *)
+  Definition report (st : pstate) : bool :=
+    negb (p_error st) && p_panic st && negb (p_error (snd (compute_bias ce_cx st [])))
+    && Nat.eqb (p_applied st) (length (p_bytes st))
+    && fst (apply_token ce_cx st []) && negb (p_error (snd (apply_token ce_cx st []))).
+
+  Lemma ce_report : option_map report ce_final = Some true.
+  Proof. vm_compute. reflexivity. Qed.
+
+  Definition report' (st : pstate) : bool :=
+    negb (p_error st) && p_panic st && negb (p_top_eos st)
+    && Nat.eqb (p_applied st) (length (p_bytes st))
+    && fst (apply_token ce_cx st []) && negb (p_error (snd (apply_token ce_cx st [])))
+    && match rollback ce_cx (snd (apply_token ce_cx st [])) 0 with Some _ => true | None => false end
+    && match rollback ce_cx st 0 with Some _ => true | None => false end.
+
+  Lemma ce_report' : option_map report' ce_final' = Some true.
+  Proof. vm_compute. reflexivity. Qed.
+
+  Theorem compute_bias_spec_original_false :
+    exists st m st', reach ce_cx st /\ compute_bias ce_cx st [] = (m, st') /\
+                     p_error st' = false /\ p_panic st' = true.
+  Proof.
+    pose proof ce_report as H. destruct ce_final as [st|] eqn:E; [|discriminate H].
+    cbn [option_map] in H. injection H as H. unfold report in H.
+    apply andb_true_iff in H as [H He']. apply andb_true_iff in H as [H Hok].
+    apply andb_true_iff in H as [H Ha]. apply andb_true_iff in H as [H Hb].
+    apply andb_true_iff in H as [He Hp].
+    apply negb_true_iff in He, Hb, He'.
+    destruct (compute_bias ce_cx st []) as [m st'] eqn:Ec. exists st, m, st'.
+    split; [apply ce_final_reach; exact E|]. split; [exact Ec|]. split; [exact Hb|].
+    exact (fl_panic _ _ (compute_bias_flags ce_cx _ _ _ _ Ec) Hp).
+  Qed.
+
+  Theorem is_accepting_spec_original_false :
+    exists st a st', reach ce_cx st /\ is_accepting ce_cx st = (a, st') /\
+                     p_error st' = false /\ p_panic st' = true.
+  Proof.
+    pose proof ce_report as H. destruct ce_final as [st|] eqn:E; [|discriminate H].
+    cbn [option_map] in H. injection H as H. unfold report in H.
+    apply andb_true_iff in H as [H He']. apply andb_true_iff in H as [H Hok].
+    apply andb_true_iff in H as [H Ha]. apply andb_true_iff in H as [H Hb].
+    apply andb_true_iff in H as [He Hp].
+    apply negb_true_iff in He, Hb, He'.
+    destruct (is_accepting ce_cx st) as [a st'] eqn:Ec. exists st, a, st'.
+    pose proof (is_accepting_ctl ce_cx _ _ _ Ec) as C.
+    split; [apply ce_final_reach; exact E|]. split; [exact Ec|].
+    split; [rewrite (cl_error _ _ C); exact He|exact (cl_panic _ _ C Hp)].
+  Qed.
+
+  Theorem validate_tokens_spec_original_false :
+    exists st n st', reach ce_cx st /\ p_applied st = length (p_bytes st) /\
+                     validate_tokens ce_cx st [] = (n, st') /\
+                     p_error st' = false /\ p_panic st' = true.
+  Proof.
+    pose proof ce_report as H. destruct ce_final as [st|] eqn:E; [|discriminate H].
+    cbn [option_map] in H. injection H as H. unfold report in H.
+    apply andb_true_iff in H as [H He']. apply andb_true_iff in H as [H Hok].
+    apply andb_true_iff in H as [H Ha]. apply andb_true_iff in H as [H Hb].
+    apply andb_true_iff in H as [He Hp].
+    apply negb_true_iff in He, Hb, He'.
+    destruct (validate_tokens ce_cx st []) as [n st'] eqn:Ec. exists st, n, st'.
+    pose proof (validate_tokens_ctl ce_cx _ _ _ _ Ec) as C.
+    split; [apply ce_final_reach; exact E|]. split; [apply Nat.eqb_eq; exact Ha|].
+    split; [exact Ec|].
+    split; [rewrite (cl_error _ _ C); exact He|exact (cl_panic _ _ C Hp)].
+  Qed.
+
+  Theorem apply_token_spec_original_false :
+    exists st st', reach ce_cx st /\ p_error st = false /\ p_applied st = length (p_bytes st) /\
+                   apply_token ce_cx st [] = (true, st') /\ p_error st' = false /\ p_panic st' = true.
+  Proof.
+    pose proof ce_report as H. destruct ce_final as [st|] eqn:E; [|discriminate H].
+    cbn [option_map] in H. injection H as H. unfold report in H.
+    apply andb_true_iff in H as [H He']. apply andb_true_iff in H as [H Hok].
+    apply andb_true_iff in H as [H Ha]. apply andb_true_iff in H as [H Hb].
+    apply andb_true_iff in H as [He Hp].
+    apply negb_true_iff in He, Hb, He'.
+    destruct (apply_token ce_cx st []) as [ok st'] eqn:Ec. cbn [fst snd] in *. subst ok.
+    exists st, st'.
+    split; [apply ce_final_reach; exact E|]. split; [exact He|].
+    split; [apply Nat.eqb_eq; exact Ha|]. split; [exact Ec|]. split; [exact He'|].
+    exact (fl_panic _ _ (apply_token_flags ce_cx _ _ _ _ Ec) Hp).
+  Qed.
+
+  (* rollback_restores (w = []) and rollback_many (ws = []) *)
+  Theorem rollback_originals_false :
+    exists st st1 st2 st2',
+      reach ce_cx st /\ p_error st = false /\ p_applied st = length (p_bytes st) /\
+      p_top_eos st = false /\
+      apply_token ce_cx st [] = (true, st1) /\ p_error st1 = false /\
+      rollback ce_cx st1 (length (@nil byte)) = Some st2 /\ p_panic st2 = true /\
+      rollback ce_cx st (length (concat (@nil bytes))) = Some st2' /\ p_panic st2' = true.
+  Proof.
+    pose proof ce_report' as H. destruct ce_final' as [st|] eqn:E; [|discriminate H].
+    cbn [option_map] in H. injection H as H. unfold report' in H.
+    apply andb_true_iff in H as [H Hr2]. apply andb_true_iff in H as [H Hr1].
+    apply andb_true_iff in H as [H He']. apply andb_true_iff in H as [H Hok].
+    apply andb_true_iff in H as [H Ha]. apply andb_true_iff in H as [H Ht].
+    apply andb_true_iff in H as [He Hp].
+    apply negb_true_iff in He, Ht, He'.
+    destruct (apply_token ce_cx st []) as [ok st1] eqn:Ec. cbn [fst snd] in *. subst ok.
+    destruct (rollback ce_cx st1 0) as [st2|] eqn:Er1; [|discriminate Hr1].
+    destruct (rollback ce_cx st 0) as [st2'|] eqn:Er2; [|discriminate Hr2].
+    exists st, st1, st2, st2'.
+    split; [apply ce_final'_reach; exact E|]. split; [exact He|].
+    split; [apply Nat.eqb_eq; exact Ha|]. split; [exact Ht|]. split; [exact Ec|].
+    split; [exact He'|]. split; [exact Er1|]. split.
+    - apply (fl_panic _ _ (rollback_flags ce_cx _ _ _ Er1)).
+      exact (fl_panic _ _ (apply_token_flags ce_cx _ _ _ _ Ec) Hp).
+    - split; [exact Er2|]. exact (fl_panic _ _ (rollback_flags ce_cx _ _ _ Er2) Hp).
+  Qed.
+End Counterexample.
+
+Print Assumptions Counterexample.reach_no_panic_original_false.
+Print Assumptions Counterexample.compute_bias_spec_original_false.
+Print Assumptions Counterexample.rollback_originals_false.
